@@ -1,6 +1,8 @@
 /-
   C02 — the event stream does not depend on how TCP segments the byte stream.
-  Property theorems only (helper lemmas: Proofs/Core.lean).
+  Property theorems only (helper lemmas: Proofs/Core.lean, Proofs/Segmentation.lean for
+  `WebSocket.feed`; Proofs/SegmentationLoop.lean, Proofs/EnvInd.lean, Proofs/SegmentationRun.lean
+  for the session loop and whole connections).
 
   The model's `feedLoop` is written exactly like `Parser.feed`'s loop: it takes a *bite*
   `data[pos:pos+remaining]` of the current read, validates the slice, extends the buffer and
@@ -11,6 +13,8 @@
 -/
 import Lomond.Proofs.Core
 import Lomond.Proofs.Segmentation
+import Lomond.Proofs.SegmentationRun
+import Lomond.Proofs.Closing
 
 namespace Lomond.C02
 open Lomond Lomond.Core
@@ -96,5 +100,217 @@ theorem hdr_invariant_preserved (d : Bytes) (s s' : Sys) (hi : HdrInv s) (hr : w
     first frame byte, are two segmentations of one stream -/
 example : ([[72, 13, 10, 13], [10, 129, 1, 97]] : List Bytes).flatten = ([[72, 13, 10, 13, 10, 129], [1, 97]] : List Bytes).flatten := by
   decide
+
+/-! ### the session: `run()`'s loop between two reads
+
+`WebSocket.feed` is only part of what `run()` does with a read.  Between the `feed` of one read
+and the `feed` of the next, `Core.loop` (the `while not websocket.is_closed` loop of
+`session.run()`) goes through: `selector.wait` returning (`tick`, the clock may advance),
+`_regular()` at the top of the cycle (`regularTop`: Poll event, automatic Ping, ping timeout,
+close timeout — each may yield an event to the application or raise), the loop condition
+`websocket.is_closed`, and `_recv`, which returns `b''` when the socket is gone (`sockOpen`).
+The theorems below show that when no time passes between the reads none of this is observable.
+
+What the hypotheses exclude, precisely:
+* **time passing between the reads** (`wait 0`): with the clock moving, `_regular()` legitimately
+  does different things (a Poll falls due between the reads but not inside one read) — the
+  subject of C15.  The wait *before the first* read of a burst may take any time `dt`.
+* **`poll = 0`**: `_check_poll` then fires at every evaluation of `_regular()`, so every extra
+  loop cycle yields an extra Poll event (`poll_zero_observable` below is a concrete witness).
+* **the application calling `session.close()` while it handles an event of the first read**:
+  the socket is closed under the loop's feet, `_recv` returns `b''` and the rest of the stream
+  *cannot be received at all*, whereas one big read had already delivered those bytes to the
+  parser (`session_close_observable` below).  `ws.close()` (the closing handshake), sends and
+  abandoning the loop are all allowed.
+* reads of zero bytes (`recv` returning `b''` means end of stream, not an empty segment). -/
+
+open Lomond.Core.SegLoop Lomond.Core.Timers
+
+/-- **`_regular()` is idempotent at a frozen clock** (`poll > 0`): whenever it returns normally —
+    at the end of every event hand-over inside `feed` (`feedYield`) or at the top of a loop cycle —
+    evaluating it again changes nothing and yields nothing: it has just yielded the Poll that was
+    due (so `_poll_start` is now), moved `_next_ping` to a multiple of the rate not before now,
+    and found neither timeout expired. -/
+theorem regular_idempotent (s s1 : Sys) (hp : 0 < s.cfg.poll) (h : regular s = .ok () s1) :
+    regular s1 = .ok () s1 :=
+  regular_settled s1 (regular_establishes hp h)
+
+/-- the state property behind it, spelled out: `poll > 0` and, once ready, the Poll timer has
+    less than `poll` on it, no Ping is due, no timeout has expired -/
+theorem settled_iff (s : Sys) :
+    Settled s ↔ (0 < s.cfg.poll ∧ (s.ready = true →
+      (∃ p, s.pollStart = some p ∧ sessionTime s - p < s.cfg.poll) ∧
+      ¬ (s.cfg.pingRate ≠ 0 ∧ sessionTime s > s.nextPing) ∧
+      ¬ (s.cfg.pingTimeout ≠ 0 ∧ sessionTime s - s.lastPong > s.cfg.pingTimeout) ∧
+      ¬ (s.cfg.closeTimeout ≠ 0 ∧ ∃ ct, s.sentCloseTime = some ct ∧ sessionTime s ≥ ct + s.cfg.closeTimeout))) :=
+  ⟨fun h => ⟨h.poll, h.quiet⟩, fun h => ⟨h.1, h.2⟩⟩
+
+/-- `_regular()` from a settled state is the identity -/
+theorem regular_settled_identity (s : Sys) (h : Settled s) : regular s = .ok () s := regular_settled s h
+
+/-- before Ready (`_regular()` is not run at all) every state with `poll > 0` is settled -/
+theorem settled_before_ready (s : Sys) (hp : 0 < s.cfg.poll) (hr : s.ready = false) : Settled s :=
+  ⟨hp, fun h => by rw [hr] at h; cases h⟩
+
+/-- **`WebSocket.feed` returns settled**: from a settled state (in particular: after the
+    `_regular()` at the top of the cycle), any read, valid or not, handshake reply included — if
+    `feed` returns at all, `_regular()` has nothing to do at the same clock value.  Everything `feed`
+    does after its last `yield` (parser and stream bookkeeping, answering a Close: `close()` stamps
+    `_sent_close_time` with *now* and `close_timeout` is disabled or ≥ 1 tick, state flags) is
+    invisible to the four timer checks. -/
+theorem feed_returns_settled (d : Bytes) (s s' : Sys) (hs : Settled s) (h : wsFeed d s = .ok () s') :
+    Settled s' := wsFeed_settled hs h
+
+/-- **Two reads with no time between them are one read** — general form, any application.
+    `hsock` is the only thing asked of the application: if the first read's `feed` returns with the
+    websocket still open, the session's socket still exists.  The first wait may take any `dt`. -/
+theorem session_two_reads (dt : Nat) (a b : Bytes) (rest : List EnvStep) (s : Sys)
+    (hi : HdrInv s) (hp : 0 < s.cfg.poll) (ha : a ≠ []) (hb : b ≠ [])
+    (hsock : ∀ s2 s3, regular (tick s dt) = .ok () s2 → wsFeed a s2 = .ok () s3 →
+      s3.closed = false → s3.sockOpen = true) :
+    loop (.wait dt (some (.data a)) :: .wait 0 (some (.data b)) :: rest) s =
+      loop (.wait dt (some (.data (a ++ b))) :: rest) s :=
+  loop_two_reads dt a b rest s hi hp ha hb hsock
+
+/-- the same for an application that never calls `session.close()`: then the library gives the
+    socket up only together with marking the websocket closed (`on_disconnect()`), which `hg`
+    says has not happened yet or has happened consistently (`sockOpen ∨ closed`) -/
+theorem session_two_reads_no_session_close (dt : Nat) (a b : Bytes) (rest : List EnvStep) (s : Sys)
+    (hi : HdrInv s) (hp : 0 < s.cfg.poll) (hn : NoSessionClose s.react)
+    (hg : s.sockOpen = true ∨ s.closed = true) (ha : a ≠ []) (hb : b ≠ []) :
+    loop (.wait dt (some (.data a)) :: .wait 0 (some (.data b)) :: rest) s =
+      loop (.wait dt (some (.data (a ++ b))) :: rest) s :=
+  loop_two_reads_inv dt a b rest s ⟨hi, hp, hn, hg⟩ ha hb
+
+/-- **Segmentation independence of the session loop.**  `readsAt dt cs` is a burst of reads: the
+    first after a wait of `dt` ticks, the others with no time passing.  Two bursts of non-empty
+    reads with the same concatenation, followed by any further script `rest`, drive the loop to
+    the same result (same final state — trace of events, application calls and bytes written
+    included —, same exception) from every state `s` with the header invariant, `poll > 0`, an
+    application that never calls `session.close()`, and the socket present unless closed. -/
+theorem session_segmentation_independent (dt : Nat) (cs₁ cs₂ : List Bytes) (rest : List EnvStep) (s : Sys)
+    (hi : HdrInv s) (hp : 0 < s.cfg.poll) (hn : NoSessionClose s.react)
+    (hg : s.sockOpen = true ∨ s.closed = true)
+    (hne₁ : ∀ x ∈ cs₁, x ≠ []) (hne₂ : ∀ x ∈ cs₂, x ≠ []) (h : cs₁.flatten = cs₂.flatten) :
+    loop (readsAt dt cs₁ ++ rest) s = loop (readsAt dt cs₂ ++ rest) s :=
+  loop_segmentation dt cs₁ cs₂ rest s ⟨hi, hp, hn, hg⟩ hne₁ hne₂ h
+
+/-- … with an arbitrary script `pre` in front (earlier reads, waits, time passing), and through
+    `run()`'s `except` / `else` clauses (`runBody`: the Disconnected event, closing the socket) -/
+theorem runBody_segmentation_independent (pre : List EnvStep) (dt : Nat) (cs₁ cs₂ : List Bytes)
+    (rest : List EnvStep) (s : Sys)
+    (hi : HdrInv s) (hp : 0 < s.cfg.poll) (hn : NoSessionClose s.react)
+    (hg : s.sockOpen = true ∨ s.closed = true)
+    (hne₁ : ∀ x ∈ cs₁, x ≠ []) (hne₂ : ∀ x ∈ cs₂, x ≠ []) (h : cs₁.flatten = cs₂.flatten) :
+    runBody (pre ++ (readsAt dt cs₁ ++ rest)) s = runBody (pre ++ (readsAt dt cs₂ ++ rest)) s :=
+  runBody_congr (loop_prefix_congr pre _ _ s ⟨hi, hp, hn, hg⟩
+    (fun s' hI => loop_segmentation dt cs₁ cs₂ rest s' hI hne₁ hne₂ h))
+
+/-- **Segmentation independence of a whole connection** (`runAll`: `Connecting`, connect, the
+    upgrade request, `Connected`, the loop, `Disconnected`, cleanup).  The handshake reply is part
+    of the stream: it may be cut anywhere, or arrive in one read together with the first frames
+    (the reads before Ready happen with `ready = false`, where `_regular()` is not run).  For every
+    configuration with `poll > 0`, every application that never calls `session.close()`, every
+    script prefix and suffix: the two connections end in the same state — every field except the
+    stored script itself, which is the input that differs. -/
+theorem connection_segmentation_independent (cfg : Cfg) (react : React) (pre rest : List EnvStep)
+    (dt : Nat) (cs₁ cs₂ : List Bytes) (hp : 0 < cfg.poll) (hn : NoSessionClose react)
+    (hne₁ : ∀ x ∈ cs₁, x ≠ []) (hne₂ : ∀ x ∈ cs₂, x ≠ []) (h : cs₁.flatten = cs₂.flatten) :
+    { runAll cfg react (pre ++ (readsAt dt cs₁ ++ rest)) with env := [] } =
+      { runAll cfg react (pre ++ (readsAt dt cs₂ ++ rest)) with env := [] } := by
+  obtain ⟨X, h1, h2⟩ := runAll_segmentation cfg react pre rest dt cs₁ cs₂ hp hn hne₁ hne₂ h
+  rw [h1, h2]; rfl
+
+/-- in particular **what the application observes is the same**: the sequence of events with their
+    payloads, the results of its calls and the bytes the client writes (all on the trace, in
+    order), and the event history handed to the application -/
+theorem connection_same_observations (cfg : Cfg) (react : React) (pre rest : List EnvStep)
+    (dt : Nat) (cs₁ cs₂ : List Bytes) (hp : 0 < cfg.poll) (hn : NoSessionClose react)
+    (hne₁ : ∀ x ∈ cs₁, x ≠ []) (hne₂ : ∀ x ∈ cs₂, x ≠ []) (h : cs₁.flatten = cs₂.flatten) :
+    (runAll cfg react (pre ++ (readsAt dt cs₁ ++ rest))).trace =
+        (runAll cfg react (pre ++ (readsAt dt cs₂ ++ rest))).trace ∧
+      (runAll cfg react (pre ++ (readsAt dt cs₁ ++ rest))).hist =
+        (runAll cfg react (pre ++ (readsAt dt cs₂ ++ rest))).hist := by
+  have e := connection_segmentation_independent cfg react pre rest dt cs₁ cs₂ hp hn hne₁ hne₂ h
+  have ht := congrArg Sys.trace e
+  have hh := congrArg Sys.hist e
+  exact ⟨ht, hh⟩
+
+/-! ### non-vacuity and necessity of the hypotheses -/
+
+/-- echoes every Text, answers Poll with a Ping, closes on Binary: never `session.close()` -/
+def ExS.react : React := fun hist =>
+  match hist with
+  | .text t :: _ => [.sendText (.str t) false]
+  | .poll :: _ => [.sendPing (.bytes [1])]
+  | .binary _ :: _ => [.close (some 1000) (.bytes [])]
+  | _ => []
+
+/-- the example application never calls `session.close()` -/
+theorem ExS.react_noSessionClose : NoSessionClose ExS.react := by
+  intro h hm
+  unfold ExS.react at hm
+  split at hm <;> simp at hm
+
+/-- the handshake reply cut inside the header block, the first frame header glued to its end, the
+    payload of Text `hi` in a read of its own, then a Ping and a Binary frame together -/
+def ExS.cut₁ : List Bytes :=
+  [Core.Ex.resp.take 50, Core.Ex.resp.drop 50 ++ [0x81], [2, 104, 105], [0x89, 0, 0x82, 1, 7]]
+
+/-- the same bytes in one read -/
+def ExS.cut₂ : List Bytes := [Core.Ex.resp ++ [0x81, 2, 104, 105, 0x89, 0, 0x82, 1, 7]]
+
+/-- non-vacuity of `connection_same_observations`: a reply cut in four reads vs one read -/
+example :
+    (runAll Core.Ex.cfg ExS.react (readsAt 0 ExS.cut₁ ++ [.wait 1 (some .eof)])).trace =
+      (runAll Core.Ex.cfg ExS.react (readsAt 0 ExS.cut₂ ++ [.wait 1 (some .eof)])).trace :=
+  (connection_same_observations Core.Ex.cfg ExS.react [] [.wait 1 (some .eof)] 0 ExS.cut₁ ExS.cut₂
+    (by decide) ExS.react_noSessionClose (by decide) (by decide) (by decide)).1
+
+/-- … and the run is not trivial: Ready, the first Poll (answered with a Ping by the application),
+    the Text echoed, the automatic Pong before the Ping event, Binary answered with `close()`,
+    EOF while closing ends gracefully -/
+example :
+    (runAll Core.Ex.cfg ExS.react (readsAt 0 ExS.cut₁ ++ [.wait 1 (some .eof)])).trace.reverse =
+      [.ev .connecting, .wr [71, 69, 84], .ev (.connected false), .ev (.ready none false), .ev .poll,
+       .wr [137, 129, 0, 0, 0, 0, 1], .res .ok,
+       .ev (.text [104, 105]), .wr [129, 130, 0, 0, 0, 0, 104, 105], .res .ok,
+       .wr [138, 128, 0, 0, 0, 0], .ev (.ping []),
+       .ev (.binary [7]), .wr [136, 130, 0, 0, 0, 0, 3, 232], .res .ok,
+       .tick 1, .sockClose, .ev (.disconnected "closed" true), .selClose] := by
+  decide +kernel
+
+/-- a ready websocket in the frames phase, `poll` as given -/
+def ExS.readyState (poll : Nat) (react : React) : Sys :=
+  { cfg := { Core.Ex.cfg with poll := poll }, react := react, env := [], sockOpen := true, ready := true,
+    startTime := some 0, p := { cont := .hdr2, remPred := 1 }, parsedResponse := true }
+
+/-- **`poll = 0` is observable**: the second loop cycle yields a second Poll event -/
+theorem poll_zero_observable :
+    (loop [.wait 0 (some (.data [0x81, 1])), .wait 0 (some (.data [97]))] (ExS.readyState 0 (fun _ => []))).state.trace ≠
+      (loop [.wait 0 (some (.data [0x81, 1, 97]))] (ExS.readyState 0 (fun _ => []))).state.trace := by
+  decide +kernel
+
+/-- with `poll = 5` the same two scripts agree (instance of `session_two_reads_no_session_close`) -/
+example :
+    loop [.wait 0 (some (.data [0x81, 1])), .wait 0 (some (.data [97]))] (ExS.readyState 5 (fun _ => [])) =
+      loop [.wait 0 (some (.data [0x81, 1, 97]))] (ExS.readyState 5 (fun _ => [])) :=
+  session_two_reads_no_session_close 0 [0x81, 1] [97] [] _ (fun h => by cases h) (by decide)
+    (fun _ hm => by cases hm) (Or.inl rfl) (by decide) (by decide)
+
+/-- closes the session's socket when it sees a Text -/
+def ExS.reactSessionClose : React := fun hist =>
+  match hist with
+  | .text _ :: _ => [.sessionClose]
+  | _ => []
+
+/-- **`session.close()` inside the burst is observable**: cut after the first message, the second
+    message cannot be received (connection lost); in one read both messages are delivered -/
+theorem session_close_observable :
+    (loop [.wait 0 (some (.data [0x81, 1, 97])), .wait 0 (some (.data [0x81, 1, 98]))]
+        (ExS.readyState 5 ExS.reactSessionClose)).state.trace ≠
+      (loop [.wait 0 (some (.data [0x81, 1, 97, 0x81, 1, 98]))]
+        (ExS.readyState 5 ExS.reactSessionClose)).state.trace := by
+  decide +kernel
 
 end Lomond.C02
